@@ -292,6 +292,87 @@ def make_body(max_lines, orders, second, KINDS=KINDS, endings_phase=False):
     return body
 
 
+def body_own_report(ctx):
+    """The same walk on a Report of the caller's own (every call gets report=own) while the global report holds another
+    submission: chunks, whole-file lines and the not-enough-sections feedback belong to the own report, the global
+    report is not touched."""
+    from pedal.core.report import Report
+    own_kinds = ['clean', 'name', 'marker', 'syntax']
+    L = ctx.choose(3, 'lines') + 1
+    kinds = [own_kinds[ctx.choose(len(own_kinds), 'k%d' % i)] for i in range(L)]
+    independent = not ctx.choose(2, 'cumulative')
+    src = mk(kinds, PATS[0][2])
+    case = {'file': src, 'mode': 'independent' if independent else 'cumulative', 'report': 'own'}
+    ctx.observe(repr(case))
+    ctx.set_sample(case)
+    if 'marker' in kinds:
+        ctx.mark_nontrivial(repr(case))
+    GLOBAL_TEXT = "g0 = 1\nprint(g0)\n"
+    cmds.clear_report()
+    cmds.contextualize_report(GLOBAL_TEXT)
+    mine = Report()
+    cmds.contextualize_report(src, report=mine)
+    g0 = (len(MAIN_REPORT.feedback), len(MAIN_REPORT.ignored_feedback))
+    sp = spans(src, DEFAULT_PAT)
+    nsec = len(sp) - 1
+    try:
+        ctx.step('separate_into_sections(report=own)')
+        sections.separate_into_sections(independent=independent, report=mine)
+        for k in range(0, nsec + 2):
+            n0 = len(mine.feedback)
+            if k > 0:
+                ctx.step('next_section(report=own)')
+                sections.next_section(report=mine)
+                if k > nsec:
+                    if not any(f.label == 'not_enough_sections' for f in mine.feedback[n0:]):
+                        ctx.fail({'symptom': 'no not_enough_sections feedback on the own report past the end'}, case=case)
+                    break
+            a, b = sp[k]
+            expect = src[a:b] if (independent or k == 0) else src[:b]
+            if mine.submission.main_code != expect:
+                ctx.fail({'symptom': 'section text on the own report is not the k-th chunk', 'mode': case['mode']}, case=case,
+                         k=k, got=mine.submission.main_code, want=expect)
+                break
+            offset = src[:a].count("\n") if independent else 0
+            ok = verify(report=mine)
+            if ok:
+                tifa_analysis(report=mine)
+                sb_cmds.run(report=mine)
+            for f in mine.feedback[n0:]:
+                if f.location is None or f.location.line is None:
+                    continue
+                name = f.fields.get('name') if isinstance(f.fields, dict) else None
+                if f.label == 'name_error':
+                    m = re.search(r"name '([a-z]\d+)'", str(f.fields.get('exception', '')) + f.message)
+                    name = m.group(1) if m else None
+                if f.category == 'syntax' and f.label in ('syntax_error', 'indentation_error'):
+                    try:
+                        ast.parse(expect)
+                        want = None
+                    except SyntaxError as e2:
+                        want = (e2.lineno or 1) + offset
+                elif name and re.fullmatch(r'[aufx]\d+', str(name)):
+                    want = int(str(name)[1:]) + 1
+                else:
+                    continue
+                if want is not None and f.location.line != want:
+                    ctx.fail({'symptom': 'line reported on the own report is not the whole-file line', 'label': f.label,
+                              'mode': case['mode']}, case=case, k=k, got=f.location.line, want=want)
+        ctx.step('stop_sections(report=own)')
+        if mine['source']['substitutions']:
+            sections.stop_sections(report=mine)
+        if mine.submission.main_code != src:
+            ctx.fail({'symptom': 'main code of the own report not restored'}, case=case)
+    except Exception as e:
+        ctx.fail({'symptom': 'sections on an own report raised', 'exception': type(e).__name__}, case=case, message=str(e)[:200])
+    if (len(MAIN_REPORT.feedback), len(MAIN_REPORT.ignored_feedback)) != g0 or MAIN_REPORT.submission.main_code != GLOBAL_TEXT \
+            or MAIN_REPORT.submission.line_offsets:
+        ctx.fail({'symptom': 'sections on an own report touched the global report'}, case=case,
+                 labels=[f.label for f in MAIN_REPORT.feedback[g0[0]:]][:5], main_code=MAIN_REPORT.submission.main_code,
+                 offsets=dict(MAIN_REPORT.submission.line_offsets))
+    ctx.outcome('own-report')
+
+
 def bounds(tier):
     return {'line_kinds': len(KINDS), 'max_lines': 4 if tier == 'quick' else 5, 'patterns': [p[0] for p in PATS],
             'tool_orders': '1 (cait, verify, tifa, run) on <=4 lines + 12 orders on <=3 lines' if tier == 'quick' else 24, 'next_section_past_end': 2, 'second_pass': 'none/same/other mode'}
@@ -304,6 +385,8 @@ def phases(tier):
                       describe='all files of <=4 lines x pattern x mode x ending x second pass'),
                 Phase('identical-sections', make_body(5, [TOOLS], True, ['same', 'marker', 'samesyn', 'clean']), setup=_setup, chunk=300,
                       describe='files of <=5 lines whose sections can be textually identical (same failing line in each)'),
+                Phase('own-report', body_own_report, setup=_setup, chunk=300,
+                      describe='files of <=3 lines walked on a caller-owned Report (report= on every call); global report untouched'),
                 Phase('endings', make_body(3, [TOOLS], False, ['clean', 'name', 'marker'], endings_phase=True), setup=_setup, chunk=300,
                       describe='files of <=3 lines; the script ends (stop/resolve) past the end, inside the last section or in '
                                'the prologue; the report may have been verified and resolved once before it was separated'),
